@@ -48,7 +48,7 @@ query = st.fixed_dictionaries({
     "fn": st.sampled_from(PLAIN + HIER),
     "root": st.fixed_dictionaries({"kind": st.sampled_from(ROOT_KINDS), "i": st.integers(0, 40),
                                    "j": st.integers(0, 40)}),
-    "root2": st.one_of(st.none(), st.none(), st.fixed_dictionaries(
+    "root2": st.one_of(st.none(), st.fixed_dictionaries(
         {"kind": st.sampled_from(ROOT_KINDS), "i": st.integers(0, 40), "j": st.integers(0, 40)})),
     "sel": st.integers(0, 3),
     "recursive": st.booleans(),
@@ -84,7 +84,7 @@ class C13(Prop):
                    "pattern",
                    "under a policy that does not make a key unique, an exact pattern may return a "
                    "non-empty subset of equal-valued elements (single-result lookup API)"]
-    N = {"quick": 1200, "thorough": 16000}
+    N = {"quick": 4800, "thorough": 64000}
     CASE_TIMEOUT_S = 60
 
     def cfg(self, tier):
